@@ -944,6 +944,7 @@ def run(ctx):
         worlds = {v: World(ctx, keys, v) for v in ("plain", "two_oct", "own_oct")}
         side_cases(ctx, worlds["plain"])
         cases = []
+        known_witness(ctx, worlds["plain"], clock, cases)
         cfgs = configurations(ctx, rng, worlds)
         for i, (variant, cfg, mode) in enumerate(cfgs):
             run_history(ctx, worlds[variant], cfg, mode, rng, clock, "h%d" % i, cases)
@@ -956,6 +957,30 @@ def run(ctx):
     finally:
         clock.uninstall()
         logging.disable(logging.NOTSET)
+
+
+def known_witness(ctx, world, clock, cases):
+    """the fixed witness of known finding key=request_param-aud (independent of VERIF_SEED): method
+    request_param accepts a signed request object addressed elsewhere as client authentication."""
+    cfg = {"ep": "token", "methods": ["client_secret_post", "request_param"], "issuer_target": False, "clients": {}}
+    world.configure(cfg)
+    clock.now = NOW0
+    hist = {"accepted_jti": set()}
+    steps, recs = [], []
+    for name, rq in (("witness:request-param-wrong-aud",
+                      {"request": {"alg": "RS256", "key": ("rsa", 1), "iss": "client_2", "aud": ["https://elsewhere.example.org/"],
+                                   "exp": NOW0 + 300, "jti": "witness-1"}}),
+                     ("witness:request-param-no-aud",
+                      {"request": {"alg": "HS256", "key": ("sym", world.secret["client_1"]), "iss": "client_1", "aud": None,
+                                   "exp": NOW0 + 300, "jti": "witness-2"}})):
+        term, rec, unmod = run_request(ctx, world, cfg, rq, NOW0, hist)
+        rec["name"] = name
+        ctx.case_seen({"name": name, "cfg": cfg, "request": rq, "auth": rec["auth"]}, True)
+        ctx.count("kind:witness")
+        steps.append(term)
+        recs.append({"i": len(recs), "name": name, "request": rq, "now": NOW0, "auth": rec["auth"], "outcome": rec["outcome"],
+                     "handed_on": {k: v for k, v in rec["seen"].items() if k != "auth"}})
+    cases.append((history_term(ctx, world, cfg, [], steps), {"cfg": cfg, "variant": world.variant, "tag": "witness", "steps": recs}))
 
 
 def side_cases(ctx, world):
